@@ -34,15 +34,26 @@ func EmptySchema() any {
 // RunPlan says how the scripted peer answers one run.
 type RunPlan struct {
 	SignalsFromStep int  // signal messages emitted before the terminal message
+	NonFatalErrors  int  // error messages (neither step- nor server-fatal) emitted before the terminal message
 	StepFatal       bool // terminal message is a step-fatal error instead of work-done
+}
+
+// SentMsg records one message the peer wrote (in stream order; index 0 is the hello).
+type SentMsg struct {
+	Kind  string // hello, signal, error, fatal, done
+	RunID string
+	End   int // cumulative stream offset after this message (0 if the write failed)
 }
 
 // Peer is a scripted, causally correct ATP v3 server: it answers exactly what was asked, once.
 type Peer struct {
-	In    io.Reader
-	Out   io.Writer
-	Hello []byte
-	Plans map[string]RunPlan // by run id; missing = plain work-done
+	In      io.ReadCloser  // closed when the client says it is done, as RunATPServer does
+	Out     io.WriteCloser // closed when the peer ends (the plugin process exits)
+	OutLink *mcrt.Link
+	Hello   []byte
+	V1      bool // legacy framing: bare WorkStartMessage in, bare WorkDoneMessage out, one run
+	Sent    []SentMsg
+	Plans   map[string]RunPlan // by run id; missing = plain work-done
 
 	// observations
 	Started     []string
@@ -59,10 +70,17 @@ func OutputFor(runID string) map[string]any {
 	return map[string]any{"message": "result of " + runID}
 }
 
-func (p *Peer) send(msg any) error {
+func (p *Peer) send(kind, runID string, msg any) error {
 	p.writeMu.Lock()
 	defer p.writeMu.Unlock()
-	return p.enc.Encode(msg)
+	before := len(p.OutLink.WriteBounds())
+	err := p.enc.Encode(msg)
+	m := SentMsg{Kind: kind, RunID: runID}
+	if b := p.OutLink.WriteBounds(); len(b) > before {
+		m.End = b[len(b)-1]
+	}
+	p.Sent = append(p.Sent, m)
+	return err
 }
 
 // Run is the peer's read loop (one thread); every accepted work-start is answered by its own thread.
@@ -71,6 +89,11 @@ func (p *Peer) Run() {
 	p.enc = cbor.NewEncoder(p.Out)
 	p.SignalsSeen = map[string]int{}
 	p.Answered = map[string]int{}
+	var steps mcrt.WaitGroup
+	defer func() {
+		steps.Wait()
+		_ = p.Out.Close()
+	}()
 	var empty any
 	if err := dec.Decode(&empty); err != nil {
 		p.ReadErr = err
@@ -78,6 +101,18 @@ func (p *Peer) Run() {
 	}
 	if _, err := p.Out.Write(p.Hello); err != nil {
 		p.ReadErr = err
+		return
+	}
+	p.Sent = append(p.Sent, SentMsg{"hello", "", len(p.Hello)})
+	if p.V1 {
+		var ws atp.WorkStartMessage
+		if err := dec.Decode(&ws); err != nil {
+			p.ReadErr = err
+			return
+		}
+		p.Started = append(p.Started, "v1")
+		p.Answered["v1"]++
+		_ = p.send("done", "v1", atp.WorkDoneMessage{StepID: ws.StepID, OutputID: "out-v1", OutputData: OutputFor("v1")})
 		return
 	}
 	for {
@@ -95,24 +130,31 @@ func (p *Peer) Run() {
 			runID := m.RunID
 			p.Started = append(p.Started, runID)
 			plan := p.Plans[runID]
+			steps.Add(1)
 			mcrt.GoNamed("peer-step-"+runID, func() {
+				defer steps.Done()
+				for i := 0; i < plan.NonFatalErrors; i++ {
+					_ = p.send("error", runID, atp.RuntimeMessage{MessageID: atp.MessageTypeError, RunID: runID,
+						MessageData: atp.ErrorMessage{Error: "just so you know: " + runID}})
+				}
 				for i := 0; i < plan.SignalsFromStep; i++ {
-					_ = p.send(atp.RuntimeMessage{MessageID: atp.MessageTypeSignal, RunID: runID,
+					_ = p.send("signal", runID, atp.RuntimeMessage{MessageID: atp.MessageTypeSignal, RunID: runID,
 						MessageData: atp.SignalMessage{SignalID: "progress", Data: map[string]any{"n": int64(i)}}})
 				}
 				p.Answered[runID]++
 				if plan.StepFatal {
-					_ = p.send(atp.RuntimeMessage{MessageID: atp.MessageTypeError, RunID: runID,
+					_ = p.send("fatal", runID, atp.RuntimeMessage{MessageID: atp.MessageTypeError, RunID: runID,
 						MessageData: atp.ErrorMessage{Error: "step failed: " + runID, StepFatal: true}})
 					return
 				}
-				_ = p.send(atp.RuntimeMessage{MessageID: atp.MessageTypeWorkDone, RunID: runID,
+				_ = p.send("done", runID, atp.RuntimeMessage{MessageID: atp.MessageTypeWorkDone, RunID: runID,
 					MessageData: atp.WorkDoneMessage{StepID: ws.StepID, OutputID: "out-" + runID, OutputData: OutputFor(runID)}})
 			})
 		case atp.MessageTypeSignal:
 			p.SignalsSeen[m.RunID]++
 		case atp.MessageTypeClientDone:
 			p.ClientDone = true
+			_ = p.In.Close()
 			return
 		}
 	}
